@@ -23,7 +23,7 @@ def model_assignment(model, vars_):
     return out
 
 
-def eval_leaves(leaves, vars_, assign, norm):
+def eval_leaves(leaves, vars_, assign, norm, extra=()):
     """Push a concrete assignment through the encoding: the leaf whose path condition holds and its normalised outcome."""
     s = z3.Solver()
     for name, val in assign.items():
@@ -32,6 +32,8 @@ def eval_leaves(leaves, vars_, assign, norm):
             s.add(v == z3.RealVal(val[0]) / z3.RealVal(val[1]))
         else:
             s.add(v == val)
+    for c in extra:
+        s.add(c)
     hits = []
     for l in leaves:
         s.push()
@@ -69,7 +71,7 @@ def kt_ob(name, spec, family='', bounds='', timeout=120, cost=5, known=None):
             # translator validation: concrete inputs through the encoding and through the real function
             tv = 0
             for assign in sp.get('samples', []):
-                hits = eval_leaves(leaves, vars_, assign, sp['norm'])
+                hits = eval_leaves(leaves, vars_, assign, sp['norm'], sp['axioms'](assign) if 'axioms' in sp else ())
                 nat = sp['native'](assign)
                 if len(hits) != 1 or hits[0] != nat:
                     res.update(status='HARNESS_ERROR', detail=f'translator validation mismatch on {assign}: encoding {hits} vs real code {nat}')
@@ -96,7 +98,7 @@ def kt_ob(name, spec, family='', bounds='', timeout=120, cost=5, known=None):
                 ok, detail = sp['replay'](assign)
                 res['replay'] = detail
                 # a solver model is also a translator-validation case
-                hits = eval_leaves(leaves, vars_, assign, sp['norm'])
+                hits = eval_leaves(leaves, vars_, assign, sp['norm'], sp['axioms'](assign) if 'axioms' in sp else ())
                 nat = sp['native'](assign)
                 if len(hits) != 1 or hits[0] != nat:
                     res.update(status='HARNESS_ERROR', detail=f'translator disagrees with the real code on the solver model {assign}: {hits} vs {nat}')
